@@ -3,9 +3,10 @@
 //! Request grammar (all labels are *model* labels: instruction `k` carries label `k`, `n = #instructions` is the
 //! last label, any larger number is a label no instruction carries):
 //!
-//!   code-write  <insns> <excs> <lines> <lvs>        whole class file + the parsed Code attribute
-//!   oracle-write-read  <insns> <excs> <lines> <lvs>  decode what was written, every offset designates its target
-//!   oracle-wellformed  <insns> <excs> <lines> <lvs>  structural validity of what was written
+//!   code-write  <insns> <excs> <lines> <lvs> [<frames>]        whole class file + the parsed Code attribute
+//!   oracle-write-read  <insns> <excs> <lines> <lvs> [<frames>]  decode what was written, every offset designates its target
+//!   oracle-wellformed  <insns> <excs> <lines> <lvs> [<frames>]  structural validity of what was written
+//!   oracle-frames-fail-iff <insns> <excs> <lines> <lvs> <frames>  written exactly when the frames are expressible, refused with an error otherwise
 //!   pool-put <insns>                                 pool indices handed to the `ldc`s, constant_pool_count
 //!   cf-write-read x<class>                           read, write, read again: `same` | `(differs frames|other)`
 //!   oracle-cf-write-read full|partial x<class>
@@ -21,6 +22,9 @@
 //!   excs  := ( (start end handler (catch)?)* )
 //!   lines := () | ( ((label line)*) )
 //!   lvs   := () | ( ((start end #name (#desc)? (#sig)? index)*) )
+//!   frames := ( (k frame)* )   stack map frames attached to instruction `k` (`InstructionListEntry.frame`), `k` strictly increasing, `k < n`
+//!   frame := (same) | (same1 vt) | (chop 0..255) | (append (vt*)) | (full (vt*) (vt*))
+//!   vt    := top | int | float | double | long | null | uthis | (obj #cls) | (uninit label)
 //!
 //! Trees are built through duke's public API; `Label`s and `LabelRange`s (crate-private fields, no constructor) are
 //! harvested from a donor class read with `duke::read_class`. Everything that inspects duke's output (class-file
@@ -33,6 +37,7 @@ use duke::tree::field::{FieldDescriptor, FieldName, FieldRef, FieldSignature};
 use duke::tree::method::code::{ArrayType, Code, ConstantDynamic, Exception, Handle, Instruction, InstructionListEntry, Label, LabelRange, Loadable, LocalVariableName, Lv, LvIndex};
 use duke::tree::method::{Method, MethodAccess, MethodDescriptor, MethodName, MethodRef};
 use duke::tree::version::Version;
+use duke::visitor::method::code::{StackMapData, VerificationTypeInfo};
 use fvh::rng::Rng;
 use fvh::run::{main_for, Ans, Out, Tier};
 use fvh::sexp::Sexp;
@@ -78,11 +83,24 @@ enum RI {
 struct RExc { start: usize, end: usize, handler: usize, catch: Option<Vec<u32>> }
 struct RLv { start: usize, end: usize, name: Vec<u32>, desc: Option<Vec<u32>>, sig: Option<Vec<u32>>, index: u16 }
 
+#[derive(Clone, Debug, PartialEq)]
+enum RVt { Top, Int, Float, Double, Long, Null, UThis, Obj(Vec<u32>), Uninit(usize) }
+#[derive(Clone, Debug, PartialEq)]
+enum RFrame { Same, Same1(RVt), Chop(u8), Append(Vec<RVt>), Full(Vec<RVt>, Vec<RVt>) }
+
+impl RFrame {
+	fn types(&self) -> Vec<&RVt> {
+		match self { RFrame::Same1(v) => vec![v], RFrame::Append(l) => l.iter().collect(), RFrame::Full(l, s) => l.iter().chain(s).collect(), _ => vec![] }
+	}
+}
+
 struct Req {
 	insns: Vec<RI>,
 	excs: Vec<RExc>,
 	lines: Option<Vec<(usize, u16)>>,
 	lvs: Option<Vec<RLv>>,
+	/// the frame of every instruction (`InstructionListEntry.frame`)
+	frames: Vec<Option<RFrame>>,
 }
 
 fn is_simple(op: usize) -> bool {
@@ -179,6 +197,55 @@ fn parse_insns(s: &Sexp) -> R<Vec<RI>> {
 
 fn opt_cps(s: &Sexp) -> R<Option<Vec<u32>>> { Ok(match s.as_opt()? { None => None, Some(x) => Some(x.as_cps()?) }) }
 
+fn parse_vt(s: &Sexp) -> R<RVt> {
+	if let Sexp::Atom(a) = s {
+		return Ok(match a.as_str() { "top" => RVt::Top, "int" => RVt::Int, "float" => RVt::Float, "double" => RVt::Double, "long" => RVt::Long, "null" => RVt::Null, "uthis" => RVt::UThis, _ => return Err(format!("verification type {s}")) })
+	}
+	match s.as_list()? {
+		[Sexp::Atom(h), c] if h == "obj" => Ok(RVt::Obj(c.as_cps()?)),
+		[Sexp::Atom(h), l] if h == "uninit" => Ok(RVt::Uninit(l.as_nat()?)),
+		_ => Err(format!("verification type {s}")),
+	}
+}
+
+fn parse_frame(s: &Sexp) -> R<RFrame> {
+	let l = s.as_list()?;
+	let head = l.first().ok_or("empty frame")?.as_atom()?;
+	let vts = |x: &Sexp| -> R<Vec<RVt>> { x.as_list()?.iter().map(parse_vt).collect() };
+	Ok(match (head, &l[1..]) {
+		("same", []) => RFrame::Same,
+		("same1", [v]) => RFrame::Same1(parse_vt(v)?),
+		("chop", [k]) => RFrame::Chop(num(k)?),
+		("append", [ls]) => RFrame::Append(vts(ls)?),
+		("full", [ls, ss]) => RFrame::Full(vts(ls)?, vts(ss)?),
+		_ => return Err(format!("unknown frame {s}")),
+	})
+}
+
+/// `((k frame)*)`, `k` strictly increasing and `< n`
+fn parse_frames(s: &Sexp, n: usize) -> R<Vec<Option<RFrame>>> {
+	let mut out = vec![None; n];
+	let mut next = 0;
+	for x in s.as_list()? {
+		match x.as_list()? {
+			[k, f] => {
+				let k = k.as_nat()?;
+				if k < next || k >= n { return Err("frame index".into()) }
+				out[k] = Some(parse_frame(f)?);
+				next = k + 1;
+			}
+			_ => return Err("frame entry".into()),
+		}
+	}
+	Ok(out)
+}
+
+fn parse_req5(i: &Sexp, e: &Sexp, l: &Sexp, v: &Sexp, f: Option<&Sexp>) -> R<Req> {
+	let mut r = parse_req(i, e, l, v)?;
+	if let Some(f) = f { r.frames = parse_frames(f, r.insns.len())?; }
+	Ok(r)
+}
+
 fn parse_req(i: &Sexp, e: &Sexp, l: &Sexp, v: &Sexp) -> R<Req> {
 	let insns = parse_insns(i)?;
 	let excs = e.as_list()?.iter().map(|x| match x.as_list()? {
@@ -199,7 +266,8 @@ fn parse_req(i: &Sexp, e: &Sexp, l: &Sexp, v: &Sexp) -> R<Req> {
 			_ => Err("lv".to_owned()),
 		}).collect::<R<_>>()?),
 	};
-	Ok(Req { insns, excs, lines, lvs })
+	let frames = vec![None; insns.len()];
+	Ok(Req { insns, excs, lines, lvs, frames })
 }
 
 // ------------------------------------------------------------------------------------------------ building the duke tree
@@ -365,6 +433,7 @@ fn build_tree(r: &Req) -> R<ClassFile> {
 	if let Some(ls) = &r.lines { for l in ls { wanted.insert(l.0); } }
 	let mut pairs = Vec::new();
 	if let Some(vs) = &r.lvs { for v in vs { wanted.insert(v.start); wanted.insert(v.end); pairs.push((v.start, v.end)); } }
+	for f in r.frames.iter().flatten() { for t in f.types() { if let RVt::Uninit(l) = t { wanted.insert(*l); } } }
 	let src = harvest(&wanted, &pairs)?;
 	let lab = |t: usize| -> R<Label> { src.map.get(&t).copied().ok_or_else(|| "label".to_owned()) };
 
@@ -416,7 +485,22 @@ fn build_tree(r: &Req) -> R<ClassFile> {
 				name: unsafe { FieldName::from_inner_unchecked(js(n)?) }, descriptor: unsafe { FieldDescriptor::from_inner_unchecked(js(d)?) },
 				handle: handle(h)?, arguments: a.iter().map(loadable).collect::<R<_>>()? })),
 		};
-		instructions.push(InstructionListEntry { label: if wanted.contains(&k) { Some(lab(k)?) } else { None }, frame: None, instruction });
+		let vt = |t: &RVt| -> R<VerificationTypeInfo> { Ok(match t {
+			RVt::Top => VerificationTypeInfo::Top, RVt::Int => VerificationTypeInfo::Integer, RVt::Float => VerificationTypeInfo::Float,
+			RVt::Double => VerificationTypeInfo::Double, RVt::Long => VerificationTypeInfo::Long, RVt::Null => VerificationTypeInfo::Null,
+			RVt::UThis => VerificationTypeInfo::UninitializedThis,
+			RVt::Obj(c) => VerificationTypeInfo::Object(unsafe { ClassName::from_inner_unchecked(js(c)?) }),
+			RVt::Uninit(l) => VerificationTypeInfo::Uninitialized(lab(*l)?),
+		}) };
+		let frame = match &r.frames[k] {
+			None => None,
+			Some(RFrame::Same) => Some(StackMapData::Same),
+			Some(RFrame::Same1(v)) => Some(StackMapData::SameLocals1StackItem { stack: vt(v)? }),
+			Some(RFrame::Chop(k)) => Some(StackMapData::Chop { k: *k }),
+			Some(RFrame::Append(ls)) => Some(StackMapData::Append { locals: ls.iter().map(vt).collect::<R<_>>()? }),
+			Some(RFrame::Full(ls, ss)) => Some(StackMapData::Full { locals: ls.iter().map(vt).collect::<R<_>>()?, stack: ss.iter().map(vt).collect::<R<_>>()? }),
+		};
+		instructions.push(InstructionListEntry { label: if wanted.contains(&k) { Some(lab(k)?) } else { None }, frame, instruction });
 	}
 	let mut code = Code::default();
 	code.max_stack = Some(7);
@@ -599,6 +683,82 @@ fn table(body: &[u8], w: usize) -> R<Vec<Vec<u16>>> {
 	Ok(rows)
 }
 
+// ------------------------------------------------------------------------------------------------ independent StackMapTable decoder (JVMS §4.7.4)
+
+#[derive(Debug, Clone, PartialEq)]
+enum DVt { Top, Int, Float, Double, Long, Null, UThis, Obj(u16), Uninit(u16) }
+#[derive(Debug, Clone, PartialEq)]
+enum DFr { Same, Same1(DVt), Chop(u8), Append(Vec<DVt>), Full(Vec<DVt>, Vec<DVt>) }
+
+impl DFr {
+	fn types(&self) -> Vec<&DVt> {
+		match self { DFr::Same1(v) => vec![v], DFr::Append(l) => l.iter().collect(), DFr::Full(l, s) => l.iter().chain(s).collect(), _ => vec![] }
+	}
+}
+
+/// `verification_type_info`: ITEM_Top 0, Integer 1, Float 2, Double 3, Long 4, Null 5, UninitializedThis 6,
+/// Object 7 + u2 cpool_index, Uninitialized 8 + u2 offset
+fn p_vt(r: &mut Rd) -> R<DVt> {
+	Ok(match r.u8()? {
+		0 => DVt::Top, 1 => DVt::Int, 2 => DVt::Float, 3 => DVt::Double, 4 => DVt::Long, 5 => DVt::Null, 6 => DVt::UThis,
+		7 => DVt::Obj(r.u16()?), 8 => DVt::Uninit(r.u16()?),
+		t => return Err(format!("verification type tag {t}")),
+	})
+}
+
+/// the body of a StackMapTable attribute: frames with their *absolute* bytecode offsets ("the bytecode offset at which a
+/// frame applies is … offset_delta + 1 [added] to the bytecode offset of the previous frame, unless the previous frame is
+/// the initial frame of the method, in which case the bytecode offset is offset_delta")
+fn parse_smt(body: &[u8]) -> R<Vec<(usize, DFr)>> {
+	let mut r = Rd { b: body, p: 0 };
+	let n = r.u16()?;
+	let mut out = Vec::new();
+	let mut prev: Option<usize> = None;
+	for _ in 0..n {
+		let t = r.u8()?;
+		let (delta, f) = match t {
+			0..=63 => (t as usize, DFr::Same),
+			64..=127 => ((t - 64) as usize, DFr::Same1(p_vt(&mut r)?)),
+			128..=246 => return Err(format!("reserved frame_type {t}")),
+			247 => { let d = r.u16()? as usize; (d, DFr::Same1(p_vt(&mut r)?)) }
+			248..=250 => (r.u16()? as usize, DFr::Chop(251 - t)),
+			251 => (r.u16()? as usize, DFr::Same),
+			252..=254 => { let d = r.u16()? as usize; let mut l = Vec::new(); for _ in 0..(t - 251) { l.push(p_vt(&mut r)?); } (d, DFr::Append(l)) }
+			255 => {
+				let d = r.u16()? as usize;
+				let nl = r.u16()?; let mut l = Vec::new(); for _ in 0..nl { l.push(p_vt(&mut r)?); }
+				let ns = r.u16()?; let mut s = Vec::new(); for _ in 0..ns { s.push(p_vt(&mut r)?); }
+				(d, DFr::Full(l, s))
+			}
+		};
+		let off = match prev { None => delta, Some(p) => p + delta + 1 };
+		prev = Some(off);
+		out.push((off, f));
+	}
+	if !r.done() { return Err("attribute_length does not match the frames".into()) }
+	Ok(out)
+}
+
+fn dvt_sexp(v: &DVt) -> Sexp {
+	match v {
+		DVt::Top => Sexp::tag("top"), DVt::Int => Sexp::tag("int"), DVt::Float => Sexp::tag("float"), DVt::Double => Sexp::tag("double"),
+		DVt::Long => Sexp::tag("long"), DVt::Null => Sexp::tag("null"), DVt::UThis => Sexp::tag("uthis"),
+		DVt::Obj(i) => Sexp::list(vec![Sexp::tag("obj"), Sexp::nat(*i as usize)]),
+		DVt::Uninit(o) => Sexp::list(vec![Sexp::tag("uninit"), Sexp::nat(*o as usize)]),
+	}
+}
+
+fn dfr_sexp(f: &DFr) -> Sexp {
+	let l = |v: &Vec<DVt>| Sexp::list(v.iter().map(dvt_sexp).collect());
+	match f {
+		DFr::Same => Sexp::list(vec![Sexp::tag("same")]),
+		DFr::Same1(v) => Sexp::list(vec![Sexp::tag("same1"), dvt_sexp(v)]),
+		DFr::Chop(k) => Sexp::list(vec![Sexp::tag("chop"), Sexp::nat(*k as usize)]),
+		DFr::Append(ls) => Sexp::list(vec![Sexp::tag("append"), l(ls)]),
+		DFr::Full(ls, ss) => Sexp::list(vec![Sexp::tag("full"), l(ls), l(ss)]),
+	}
+}
+
 // ------------------------------------------------------------------------------------------------ independent instruction decoder (JVMS §6.5)
 
 #[derive(Debug, Clone, PartialEq)]
@@ -709,6 +869,8 @@ fn blob(b: &[u8]) -> Sexp {
 fn rows(v: &[Vec<u16>]) -> Sexp { Sexp::list(v.iter().map(|r| Sexp::list(r.iter().map(|&x| Sexp::nat(x as usize)).collect())).collect()) }
 
 struct Written { bytes: Vec<u8>, class: PClass, code: PCode, lnt: Option<Vec<Vec<u16>>>, lvt: Option<Vec<Vec<u16>>>, lvtt: Option<Vec<Vec<u16>>>,
+	/// the StackMapTable attribute, if there is one: its position in Code's attribute list and its decoded frames (Err = undecodable)
+	smt: Option<(usize, R<Vec<(usize, DFr)>>)>,
 	/// rows of the BootstrapMethods attribute: handle index, argument indices
 	bsms: Vec<(u16, Vec<u16>)> }
 
@@ -725,6 +887,8 @@ fn dissect(bytes: Vec<u8>) -> R<Written> {
 	let lnt = one("LineNumberTable", 2)?;
 	let lvt = one("LocalVariableTable", 5)?;
 	let lvtt = one("LocalVariableTypeTable", 5)?;
+	let sm: Vec<usize> = code.attrs.iter().enumerate().filter(|(_, a)| class.utf8(a.name) == Some("StackMapTable".as_bytes())).map(|(i, _)| i).collect();
+	let smt = match sm.len() { 0 => None, 1 => Some((sm[0], parse_smt(&code.attrs[sm[0]].body))), _ => return Err("several StackMapTable".into()) };
 	let mut bsms = Vec::new();
 	let ba = class.attr(&class.attrs, "BootstrapMethods");
 	if ba.len() > 1 { return Err("several BootstrapMethods".into()) }
@@ -740,7 +904,7 @@ fn dissect(bytes: Vec<u8>) -> R<Written> {
 		}
 		if !r.done() { return Err("attribute_length of BootstrapMethods".into()) }
 	}
-	Ok(Written { bytes, class, code, lnt, lvt, lvtt, bsms })
+	Ok(Written { bytes, class, code, lnt, lvt, lvtt, smt, bsms })
 }
 
 fn code_write(r: &Req) -> Ans {
@@ -759,6 +923,11 @@ fn code_write(r: &Req) -> Ans {
 				Sexp::opt(w.lnt.as_ref(), |t| rows(t)),
 				Sexp::opt(w.lvt.as_ref(), |t| rows(t)),
 				Sexp::opt(w.lvtt.as_ref(), |t| rows(t)),
+				match &w.smt {
+					None => Sexp::list(vec![]),
+					Some((_, Err(_))) => Sexp::list(vec![Sexp::tag("unparsable")]),
+					Some((_, Ok(fs))) => Sexp::list(vec![Sexp::list(fs.iter().map(|(o, f)| Sexp::list(vec![Sexp::nat(*o), dfr_sexp(f)])).collect())]),
+				},
 			]))
 		}
 	}
@@ -878,6 +1047,37 @@ fn check_denotes(r: &Req, w: &Written) -> Result<(), &'static str> {
 	};
 	lv_check(false, &w.lvt)?;
 	lv_check(true, &w.lvtt)?;
+	// stack map frames: one decoded frame per instruction that carries one, in order, at the address of that instruction,
+	// with the same data; Object types at class entries of that name, Uninitialized types at the address of their label
+	let want: Vec<(usize, &RFrame)> = r.frames.iter().enumerate().filter_map(|(k, f)| f.as_ref().map(|f| (k, f))).collect();
+	match &w.smt {
+		None => if !want.is_empty() { return Err("frames-missing") },
+		Some((_, Err(_))) => return Err("frames-undecodable"),
+		Some((_, Ok(fs))) => {
+			if want.is_empty() { return Err("frames-empty-table") }
+			if fs.len() != want.len() { return Err("frames-count") }
+			let vt_ok = |a: &RVt, b: &DVt| -> bool { match (a, b) {
+				(RVt::Top, DVt::Top) | (RVt::Int, DVt::Int) | (RVt::Float, DVt::Float) | (RVt::Double, DVt::Double) | (RVt::Long, DVt::Long)
+					| (RVt::Null, DVt::Null) | (RVt::UThis, DVt::UThis) => true,
+				(RVt::Obj(c), DVt::Obj(i)) => class_at(cls, c, *i),
+				(RVt::Uninit(l), DVt::Uninit(o)) => at(*l) == Some(*o as i64),
+				_ => false,
+			} };
+			let vts_ok = |a: &Vec<RVt>, b: &Vec<DVt>| a.len() == b.len() && a.iter().zip(b).all(|(x, y)| vt_ok(x, y));
+			for ((k, f), (off, d)) in want.iter().zip(fs) {
+				if at(*k) != Some(*off as i64) { return Err("frame-offset") }
+				let ok = match (f, d) {
+					(RFrame::Same, DFr::Same) => true,
+					(RFrame::Same1(a), DFr::Same1(b)) => vt_ok(a, b),
+					(RFrame::Chop(a), DFr::Chop(b)) => a == b,
+					(RFrame::Append(a), DFr::Append(b)) => vts_ok(a, b),
+					(RFrame::Full(a, x), DFr::Full(b, y)) => vts_ok(a, b) && vts_ok(x, y),
+					_ => false,
+				};
+				if !ok { return Err("frame-data") }
+			}
+		}
+	}
 	Ok(())
 }
 
@@ -1032,6 +1232,23 @@ fn check_wellformed(w: &Written) -> Result<(), &'static str> {
 		if !insn_at(row[0] as i64) || !(insn_at(end as i64) || end == n) { return Err("local-variable-pc") }
 		if c.utf8(row[2]).is_none() || c.utf8(row[3]).is_none() { return Err("local-variable-name") }
 	} }
+	// StackMapTable (JVMS §4.7.4): the first attribute of Code, decodable to its last byte, every frame on an instruction
+	// boundary, Object types at class entries, Uninitialized types at a `new` instruction
+	match &w.smt {
+		None => {}
+		Some((_, Err(_))) => return Err("stack-map-undecodable"),
+		Some((pos, Ok(fs))) => {
+			if *pos != 0 || fs.is_empty() { return Err("stack-map-place") }
+			for (off, f) in fs {
+				if !insn_at(*off as i64) { return Err("stack-map-offset") }
+				for t in f.types() { match t {
+					DVt::Obj(i) => if !c.is_class(*i) { return Err("stack-map-object") },
+					DVt::Uninit(o) => if !insn_at(*o as i64) || code.code.get(*o as usize) != Some(&0xbb) { return Err("stack-map-uninitialized") },
+					_ => {}
+				} }
+			}
+		}
+	}
 	Ok(())
 }
 
@@ -1050,6 +1267,8 @@ fn wellformed_domain(r: &Req) -> bool {
 	}) && r.excs.iter().all(|e| e.start < n && e.handler < n)
 		&& r.lines.iter().flatten().all(|l| l.0 < n)
 		&& r.lvs.iter().flatten().all(|v| v.start < n)
+		// JVMS §4.10.1.4: an Uninitialized type names the `new` instruction that created the object
+		&& r.frames.iter().flatten().all(|f| f.types().iter().all(|t| match t { RVt::Uninit(l) => matches!(r.insns.get(*l), Some(RI::ClsOp(187, _))), _ => true }))
 }
 
 fn oracle(op: &str, r: &Req) -> Ans {
@@ -1058,6 +1277,38 @@ fn oracle(op: &str, r: &Req) -> Ans {
 	let w = match dissect(b) { Ok(w) => w, Err(_) => return Ans::fail("unparsable") };
 	let res = if op == "oracle-write-read" { check_denotes(r, &w) } else if wellformed_domain(r) { check_wellformed(&w) } else { return Ans::out_of_domain() };
 	match res { Ok(()) => Ans::pass(), Err(t) => Ans::fail(t) }
+}
+
+/// JVMS §4.7.4 can express the frames: at most 65535 of them, chop counts and append lengths in 1..=3, at most 65535 locals
+/// and stack items, every Uninitialized label is one that has a bytecode offset (an instruction, or the end of the code)
+fn table_ok(r: &Req) -> bool {
+	let n = r.insns.len();
+	r.frames.iter().flatten().count() <= 65535 && r.frames.iter().flatten().all(|f| (match f {
+		RFrame::Chop(k) => (1..=3).contains(k),
+		RFrame::Append(l) => (1..=3).contains(&l.len()),
+		RFrame::Full(l, s) => l.len() <= 65535 && s.len() <= 65535,
+		_ => true,
+	}) && f.types().iter().all(|t| match t { RVt::Uninit(l) => *l <= n, _ => true }))
+}
+
+/// the class with its frames is written exactly when the class without them is and the frames are expressible; never a panic.
+/// Domain: the class without frames can be written and the pool has room for two entries per Object type.
+fn oracle_frames_fail_iff(r: &Req) -> Ans {
+	let r0 = Req { insns: r.insns.clone(), excs: r.excs.iter().map(|e| RExc { start: e.start, end: e.end, handler: e.handler, catch: e.catch.clone() }).collect(),
+		lines: r.lines.clone(), lvs: r.lvs.as_ref().map(|v| v.iter().map(|x| RLv { start: x.start, end: x.end, name: x.name.clone(), desc: x.desc.clone(), sig: x.sig.clone(), index: x.index }).collect()),
+		frames: vec![None; r.insns.len()] };
+	let tree0 = match build_tree(&r0) { Ok(t) => t, Err(e) => return Ans::BadOp(e) };
+	let W::Ok(b0) = write(&tree0) else { return Ans::out_of_domain() };
+	let Ok(w0) = dissect(b0) else { return Ans::fail("unparsable") };
+	let objects: usize = r.frames.iter().flatten().map(|f| f.types().iter().filter(|t| matches!(t, RVt::Obj(_))).count()).sum();
+	if w0.class.pool_count as usize + 2 * objects > 65535 { return Ans::out_of_domain() }
+	let tree = match build_tree(r) { Ok(t) => t, Err(e) => return Ans::BadOp(e) };
+	match (write(&tree), table_ok(r)) {
+		(W::Panic, _) => Ans::fail("panic"),
+		(W::Ok(_), true) | (W::Err, false) => Ans::pass(),
+		(W::Ok(_), false) => Ans::fail("accepted"),
+		(W::Err, true) => Ans::fail("refused"),
+	}
 }
 
 // ------------------------------------------------------------------------------------------------ whole classes: read, write, read
@@ -1092,6 +1343,9 @@ fn exec(op: &str, args: &[Sexp]) -> Ans {
 	macro_rules! tr { ($e:expr) => { match $e { Ok(x) => x, Err(e) => return Ans::BadOp(e) } } }
 	match (op, args) {
 		("code-write", [i, e, l, v]) => code_write(&tr!(parse_req(i, e, l, v))),
+		("code-write", [i, e, l, v, f]) => code_write(&tr!(parse_req5(i, e, l, v, Some(f)))),
+		("oracle-write-read" | "oracle-wellformed", [i, e, l, v, f]) => oracle(op, &tr!(parse_req5(i, e, l, v, Some(f)))),
+		("oracle-frames-fail-iff", [i, e, l, v, f]) => oracle_frames_fail_iff(&tr!(parse_req5(i, e, l, v, Some(f)))),
 		// not generated; for reports: lets a panic of the writer escape so that the runner prints `panic <file:line>`
 		("code-write-raw", [i, e, l, v]) => {
 			let tree = tr!(build_tree(&tr!(parse_req(i, e, l, v))));
@@ -1102,7 +1356,8 @@ fn exec(op: &str, args: &[Sexp]) -> Ans {
 		("pool-put", [i]) => {
 			let insns = tr!(parse_insns(i));
 			if insns.iter().any(|x| !matches!(x, RI::Ldc(_))) { return Ans::BadOp("pool-put takes ldc instructions only".into()) }
-			let r = Req { insns, excs: vec![], lines: None, lvs: None };
+			let frames = vec![None; insns.len()];
+			let r = Req { insns, excs: vec![], lines: None, lvs: None, frames };
 			let tree = tr!(build_tree(&r));
 			match write(&tree) {
 				W::Err => Ans::err(),
@@ -1396,6 +1651,240 @@ fn random_large(r: &mut Rng, out: &mut Out) -> B {
 	}
 	out.stats.hit("stream:random-large");
 	b_
+}
+
+
+// ------------------------------------------------------------------------------------------------ generators: stack map frames
+
+fn emit5(out: &mut Out, insns: Sexp, excs: Sexp, lines: Sexp, lvs: Sexp, frames: Sexp, oracles: bool) {
+	let args = [insns, excs, lines, lvs, frames];
+	out.op("code-write", &args);
+	out.op("oracle-frames-fail-iff", &args);
+	if oracles { out.op("oracle-write-read", &args); out.op("oracle-wellformed", &args); }
+}
+fn emit_frames(out: &mut Out, b: &B, frames: &[(usize, Sexp)], oracles: bool) {
+	let f = Sexp::list(frames.iter().map(|(k, f)| Sexp::list(vec![Sexp::nat(*k), f.clone()])).collect());
+	emit5(out, b.insns(), Sexp::list(vec![]), Sexp::list(vec![]), Sexp::list(vec![]), f, oracles)
+}
+
+const VT_ATOMS: [&str; 7] = ["top", "int", "float", "double", "long", "null", "uthis"];
+/// class names of Object types: the class itself and its super class (already in the pool), names other instructions and
+/// the exception table use, names nothing else uses
+const FRAME_CLASSES: [&str; 8] = ["C", "java/lang/Object", "p/Q", "[I", "E", "java/lang/Throwable", "Z", "x/Y"];
+
+fn vt_obj(c: &str) -> Sexp { sx("obj", vec![Sexp::str(c)]) }
+fn vt_uninit(l: usize) -> Sexp { sx("uninit", vec![Sexp::nat(l)]) }
+fn f_same() -> Sexp { sx("same", vec![]) }
+fn f_same1(v: Sexp) -> Sexp { sx("same1", vec![v]) }
+fn f_chop(k: usize) -> Sexp { sx("chop", vec![Sexp::nat(k)]) }
+fn f_append(v: Vec<Sexp>) -> Sexp { sx("append", vec![Sexp::list(v)]) }
+fn f_full(l: Vec<Sexp>, s: Vec<Sexp>) -> Sexp { sx("full", vec![Sexp::list(l), Sexp::list(s)]) }
+
+/// a verification type for a method of `n` instructions whose `new` instructions are `news`
+fn rand_vt(r: &mut Rng, n: usize, news: &[usize], dirty: bool, out: &mut Out) -> Sexp {
+	match r.below(10) {
+		0..=4 => { out.stats.hit("vt:item"); Sexp::tag(*r.pick(&VT_ATOMS)) }
+		5..=7 => { out.stats.hit("vt:object"); vt_obj(*r.pick(&FRAME_CLASSES)) }
+		_ => {
+			if dirty && r.chance(1, 6) { out.stats.hit("vt:uninit-unknown-label"); return vt_uninit(n + 1 + r.below(3)) }
+			if !news.is_empty() && !r.chance(1, 8) { out.stats.hit("vt:uninit-new"); vt_uninit(*r.pick(news)) }
+			else if r.chance(1, 4) { out.stats.hit("vt:uninit-last-label"); vt_uninit(n) }
+			else { out.stats.hit("vt:uninit-other-insn"); vt_uninit(r.below(n.max(1))) }
+		}
+	}
+}
+
+fn rand_frame(r: &mut Rng, n: usize, news: &[usize], dirty: bool, out: &mut Out) -> Sexp {
+	let kind = r.below(10);
+	match kind {
+		0 | 1 => { out.stats.hit("frame:same"); f_same() }
+		2 | 3 => { out.stats.hit("frame:same1"); f_same1(rand_vt(r, n, news, dirty, out)) }
+		4 | 5 => {
+			let k = if dirty && r.chance(1, 3) { out.stats.hit("frame:chop-out-of-range"); *r.pick(&[0usize, 4, 5, 255]) } else { out.stats.hit("frame:chop"); r.range(1, 3) };
+			f_chop(k)
+		}
+		6 | 7 => {
+			let k = if dirty && r.chance(1, 3) { out.stats.hit("frame:append-out-of-range"); *r.pick(&[0usize, 4, 5]) } else { out.stats.hit("frame:append"); r.range(1, 3) };
+			f_append((0..k).map(|_| rand_vt(r, n, news, dirty, out)).collect())
+		}
+		_ => {
+			out.stats.hit("frame:full");
+			let (a, b) = (*r.pick(&[0usize, 0, 1, 2, 3, 5]), *r.pick(&[0usize, 0, 1, 2, 4]));
+			f_full((0..a).map(|_| rand_vt(r, n, news, dirty, out)).collect(), (0..b).map(|_| rand_vt(r, n, news, dirty, out)).collect())
+		}
+	}
+}
+
+fn gen_frames(r: &mut Rng, thorough: bool, out: &mut Out) {
+	let e = || Sexp::list(vec![]);
+
+	// ---- F1. exhaustive small scope: `new C; return` with every pair of frames from a small alphabet on the two instructions
+	{
+		let alpha: Vec<Option<Sexp>> = vec![None, Some(f_same()), Some(f_same1(Sexp::tag("int"))), Some(f_same1(vt_obj("C"))), Some(f_same1(vt_obj("Z"))),
+			Some(f_same1(vt_uninit(0))), Some(f_same1(vt_uninit(2))), Some(f_same1(vt_uninit(3))), Some(f_chop(0)), Some(f_chop(1)), Some(f_chop(3)), Some(f_chop(4)),
+			Some(f_append(vec![])), Some(f_append(vec![Sexp::tag("long"), vt_obj("Z"), vt_uninit(0)])), Some(f_append(vec![Sexp::tag("top"); 4])),
+			Some(f_full(vec![], vec![])), Some(f_full(vec![vt_obj("java/lang/Object"), Sexp::tag("double")], vec![vt_uninit(0), Sexp::tag("null")]))];
+		for a in &alpha { for b in &alpha {
+			if a.is_none() && b.is_none() { continue }
+			let mut bb = B::new();
+			bb.push(sx("cls", vec![Sexp::nat(187), Sexp::str("C")]));
+			bb.push(ret_insn());
+			let fs: Vec<(usize, Sexp)> = [(0usize, a), (1, b)].into_iter().filter_map(|(k, f)| f.clone().map(|f| (k, f))).collect();
+			out.stats.hit("stream:frames-exhaustive-small");
+			emit_frames(out, &bb, &fs, true);
+		} }
+	}
+
+	// ---- F2. random small methods with `new` instructions, frames of every kind on a random subset, sometimes tables
+	for _ in 0..(if thorough { 30000 } else { 1400 }) {
+		let n = if r.chance(1, 12) { r.range(30, 90) } else { r.range(1, 16) };
+		let dirty = r.chance(1, 5);
+		let m = Mode { dirty: false };
+		let mut b = B::new();
+		let mut news = Vec::new();
+		for k in 0..n {
+			let i = if r.chance(1, 4) { news.push(k); sx("cls", vec![Sexp::nat(187), Sexp::str(*r.pick(&FRAME_CLASSES))]) }
+				else if r.chance(1, 6) { sx("bi", vec![Sexp::int(64)]) } // two-byte filler: positions != indices
+				else { rand_insn(r, n, m, out) };
+			b.push(i);
+		}
+		let dens = *r.pick(&[1usize, 2, 2, 3, 6]);
+		let mut fs = Vec::new();
+		for k in 0..n { if r.chance(1, dens) { fs.push((k, rand_frame(r, n, &news, dirty, out))); } }
+		if fs.is_empty() { fs.push((r.below(n), rand_frame(r, n, &news, dirty, out))); }
+		out.stats.hit(if dirty { "frames-random:dirty" } else { "frames-random:clean" });
+		out.stats.hit(if fs[0].0 == 0 { "frames-random:first-at-0" } else { "frames-random:first-later" });
+		out.stats.hit("stream:frames-random-small");
+		let f = Sexp::list(fs.iter().map(|(k, f)| Sexp::list(vec![Sexp::nat(*k), f.clone()])).collect());
+		if r.chance(1, 3) {
+			let (x, l, v) = rand_tables(r, n, m, out);
+			emit5(out, b.insns(), x, l, v, f, true);
+		} else { emit5(out, b.insns(), e(), e(), e(), f, true); }
+	}
+
+	// ---- F3. offset_delta at the short/extended boundary: first frame at offset a, second frame `gap` bytes further
+	for &first in &[0usize, 1, 62, 63, 64, 65, 255, 256, 40000] {
+		for &gap in &[1usize, 2, 63, 64, 65, 66, 256, 257, 20000] {
+			for kind in 0..4 {
+				let mut b = B::new();
+				b.filler(first, if first > 1000 { 1 } else { 0 });
+				let k0 = b.push(sx("cls", vec![Sexp::nat(187), Sexp::str("C")])); // 3 bytes
+				b.filler(gap.saturating_sub(3), r.below(3));
+				if gap < 3 { continue }
+				let k1 = b.push(nop());
+				b.push(ret_insn());
+				let mk = |k: usize, r: &mut Rng| match kind { 0 => f_same(), 1 => f_same1(if r.chance(1, 2) { vt_uninit(k0) } else { vt_obj("Z") }), 2 => f_chop(r.range(1, 3)), _ => if k == 0 { f_append(vec![Sexp::tag("int")]) } else { f_full(vec![Sexp::tag("int")], vec![]) } };
+				let fs = vec![(k0, mk(0, r)), (k1, mk(1, r))];
+				out.stats.hit(&format!("stream:frames-delta first={} gap={}", if first <= 63 { "short" } else { "extended" }, if gap - 1 <= 63 { "short" } else { "extended" }));
+				emit_frames(out, &b, &fs, true);
+			}
+		}
+	}
+	// gaps 1 and 2: adjacent one-byte instructions
+	for &gap in &[1usize, 2] {
+		let mut b = B::new();
+		let k0 = b.push(nop());
+		b.filler(gap - 1, 0);
+		let k1 = b.push(nop());
+		b.push(ret_insn());
+		out.stats.hit("stream:frames-adjacent");
+		emit_frames(out, &b, &[(k0, f_same()), (k1, f_same1(Sexp::tag("float")))], true);
+	}
+
+	// ---- F4. every verification type in every position; every chop / append count
+	{
+		let mut b = B::new();
+		let nw = b.push(sx("cls", vec![Sexp::nat(187), Sexp::str("p/Q")]));
+		for _ in 0..8 { b.push(nop()); }
+		let nw2 = b.push(sx("cls", vec![Sexp::nat(187), Sexp::str("Z")]));
+		b.push(ret_insn());
+		let all = |l: usize| -> Vec<Sexp> { VT_ATOMS.iter().map(|a| Sexp::tag(*a)).chain([vt_obj("C"), vt_obj("Z"), vt_obj("Z"), vt_uninit(l), vt_uninit(nw2)]).collect() };
+		let fs = vec![(0, f_full(all(nw), all(nw))), (1, f_append(vec![Sexp::tag("double")])), (2, f_append(vec![Sexp::tag("long"), vt_obj("x/Y")])),
+			(3, f_append(vec![vt_uninit(nw2), vt_obj("x/Y"), Sexp::tag("uthis")])), (4, f_chop(1)), (5, f_chop(2)), (6, f_chop(3)),
+			(7, f_same1(vt_uninit(nw2))), (8, f_same1(vt_obj("[I"))), (9, f_same()), (10, f_full(vec![], all(nw)))];
+		out.stats.hit("stream:frames-every-type");
+		emit_frames(out, &b, &fs, true);
+		for (bad, name) in [(f_chop(0), "chop0"), (f_chop(4), "chop4"), (f_chop(255), "chop255"), (f_append(vec![]), "append0"), (f_append(vec![Sexp::tag("int"); 4]), "append4"),
+				(f_same1(vt_uninit(99)), "uninit-unknown"), (f_full(vec![vt_uninit(99)], vec![]), "uninit-unknown"), (f_full(vec![], vec![Sexp::tag("int"), vt_uninit(12)]), "uninit-unknown")] {
+			for at in [0usize, 5] {
+				let mut fs2: Vec<(usize, Sexp)> = fs.iter().filter(|(k, _)| *k != at).cloned().collect();
+				fs2.push((at, bad.clone()));
+				fs2.sort_by_key(|x| x.0);
+				out.stats.hit(&format!("stream:frames-refused {name}"));
+				emit_frames(out, &b, &fs2, false);
+			}
+		}
+	}
+
+	// ---- F5. frames in methods that need several attempts (`frames.clear()`): jumps at the i16 limit, cascades
+	for &off in &[32767i64, 32768, 32769, -32768, -32769, -32770] {
+		for class in 0..3 {
+			let kind = match class { 0 => r.below(16), 1 => 16, _ => 17 };
+			let b = boundary(kind, off, r.below(3), *r.pick(&[0usize, 1, 2]), r.below(4));
+			let n = b.n;
+			// frames on the first instructions (deltas unaffected), around the jump and its target, and on the last instruction
+			let mut ks: Vec<usize> = vec![0, 1, 2, n / 2, n - 3, n - 2, n - 1];
+			ks.retain(|k| *k < n); ks.sort(); ks.dedup();
+			let fs: Vec<(usize, Sexp)> = ks.iter().map(|&k| (k, match r.below(4) { 0 => f_same(), 1 => f_same1(Sexp::tag("int")), 2 => f_chop(1), _ => f_full(vec![vt_obj("Z")], vec![]) })).collect();
+			out.stats.hit(&format!("stream:frames-retry boundary off={off}"));
+			emit_frames(out, &b, &fs, true);
+		}
+	}
+	for &k in &(if thorough { vec![1usize, 2, 3, 6, 13] } else { vec![1usize, 2, 4] }) {
+		let b = cascade(r, k);
+		let n = b.n;
+		let mut ks: Vec<usize> = (0..k + 2).chain([n / 3, n - 2, n - 1]).collect();
+		ks.retain(|x| *x < n); ks.sort(); ks.dedup();
+		let fs: Vec<(usize, Sexp)> = ks.iter().map(|&x| (x, if r.chance(1, 2) { f_same() } else { f_same1(vt_uninit(n)) })).collect();
+		out.stats.hit(&format!("stream:frames-retry cascade k={k}"));
+		emit_frames(out, &b, &fs, true);
+	}
+	for _ in 0..(if thorough { 300 } else { 25 }) {
+		let b = random_large(r, out);
+		let n = b.n;
+		let cnt = r.range(1, 12);
+		let mut ks: Vec<usize> = (0..cnt).map(|_| if r.chance(1, 3) { r.below(8.min(n)) } else { r.below(n) }).collect();
+		ks.sort(); ks.dedup();
+		let fs: Vec<(usize, Sexp)> = ks.iter().map(|&k| (k, rand_frame(r, n, &[], false, out))).collect();
+		out.stats.hit("stream:frames-random-large");
+		emit_frames(out, &b, &fs, true);
+	}
+
+	// ---- F6. Object types and the constant pool: indices beyond 255, shared and fresh entries, classes also used by code
+	for variant in 0..(if thorough { 12 } else { 4 }) {
+		let mut b = B::new();
+		for i in 0..(250 + variant) { b.push(sx("ldc-int", vec![Sexp::int(1000 + i as i64)])); }
+		b.push(sx("cls", vec![Sexp::nat(192), Sexp::str("N1")]));
+		let nw = b.push(sx("cls", vec![Sexp::nat(187), Sexp::str("N2")]));
+		b.push(sx("ldc-cls", vec![Sexp::str("N3")]));
+		b.push(sx("ldc-str", vec![Sexp::str("N4")])); // a String "N4": the Utf8 is shared with the class N4, the class entry is new
+		b.push(ret_insn());
+		let fs = vec![(0, f_append(vec![vt_obj("N1"), vt_obj("N2"), vt_obj("N3")])), (3, f_full(vec![vt_obj("N4"), vt_obj("N5"), vt_obj("N5"), vt_obj("C")], vec![vt_uninit(nw), vt_obj("N6")])),
+			(nw, f_same1(vt_obj("java/lang/Object")))];
+		let x = Sexp::list(vec![Sexp::list(vec![Sexp::nat(0), Sexp::nat(nw), Sexp::nat(nw), Sexp::list(vec![Sexp::str("N7")])])]);
+		let l = Sexp::list(vec![Sexp::list(vec![Sexp::list(vec![Sexp::nat(0), Sexp::nat(1)])])]);
+		let f = Sexp::list(fs.iter().map(|(k, f)| Sexp::list(vec![Sexp::nat(*k), f.clone()])).collect());
+		out.stats.hit("stream:frames-pool-255");
+		emit5(out, b.insns(), x, l, e(), f, true);
+	}
+
+	// ---- F7. many frames, large counts
+	for &n in &(if thorough { vec![300usize, 2000, 65535] } else { vec![300usize, 2000] }) {
+		let mut b = B::new();
+		b.filler(n - 1, 0);
+		b.push(ret_insn());
+		let fs: Vec<(usize, Sexp)> = (0..n).map(|k| (k, if k % 97 == 5 { f_same1(vt_obj(if k % 2 == 0 { "Z" } else { "C" })) } else { f_same() })).collect();
+		out.stats.hit(&format!("stream:frames-many n={n}"));
+		emit_frames(out, &b, &fs, true);
+	}
+	for &(nl, ns) in &[(65535usize, 0usize), (65536, 0), (0, 65536), (300, 300)] {
+		let mut b = B::new();
+		b.push(nop());
+		b.push(ret_insn());
+		let fs = vec![(1usize, f_full(vec![Sexp::tag("int"); nl], vec![Sexp::tag("top"); ns]))];
+		out.stats.hit(&format!("stream:frames-full-count locals={nl} stack={ns}"));
+		emit_frames(out, &b, &fs, nl <= 65535 && ns <= 65535);
+	}
 }
 
 fn hex(b: &[u8]) -> Sexp { Sexp::bytes(b) }
@@ -1707,6 +2196,9 @@ fn gen(r: &mut Rng, tier: Tier, out: &mut Out) {
 				Sexp::list(vec![Sexp::nat(1), Sexp::nat(t), Sexp::str("b"), Sexp::list(vec![Sexp::str("J")]), Sexp::list(vec![Sexp::str("TT;")]), Sexp::nat(300)])])]),
 			true);
 	}
+
+	// ---- 9b. stack map frames attached to instructions (StackMapTable attribute)
+	gen_frames(r, thorough, out);
 
 	// ---- 10. whole classes: hand-assembled with / without frames, and the javac corpus
 	for k in 0..4 { for frames in 0..4 {
